@@ -5,6 +5,7 @@ mod corpus;
 mod gen;
 mod rng;
 mod p15;
+mod p06;
 mod p07;
 mod p11;
 mod p12;
@@ -22,6 +23,8 @@ use std::io::Write;
 pub struct Case {
     /// Coq term of the property's case type
     pub term: String,
+    /// extra vernacular run after the case's definition (certificates); `@C` is the case constant, `@K` its index
+    pub post: String,
     /// everything needed to replay / understand the case
     pub json: Value,
     /// non-trivial by the property's own rule
@@ -114,6 +117,7 @@ fn main() {
         "C12" => p12::run(&args),
         "C13" => p13::run(&args),
         "C07" => p07::run(&args),
+        "C06" => p06::run(&args),
         "C17" => p17::run(&args),
         "C08" => p08::run08(&args),
         "C09" => p08::run09(&args),
@@ -146,6 +150,9 @@ fn main() {
         }
         let k = i % shards;
         writeln!(files[k], "Definition c{} : {} :=\n {}.\n", i, batch.case_ty, c.term).unwrap();
+        if !c.post.is_empty() {
+            writeln!(files[k], "{}\n", c.post.replace("@C", &format!("c{}", i)).replace("@K", &format!("{}%N", i))).unwrap();
+        }
         per_shard[k].push(i);
         writeln!(jl, "{}", json!({"index": i, "nontrivial": c.nontrivial, "case": c.json})).unwrap();
         if c.nontrivial {
